@@ -1543,4 +1543,433 @@ Proof.
   - exact (b_res _ _ _ HB).
 Qed.
 
+
+(** * C19: cancellation, isolation of failing calls *)
+
+(** the reply cell of a cancellable method is closed: the next poll of its handler abandons it --
+    whatever phase the method is in, nothing of the method runs any more, the reply sender is dropped,
+    the guard the handler held is released, nothing else changes *)
+Theorem cancel_abandons (s : sys) h :
+  c_nocancel (q_call (h_req h)) = false -> is_closed s (q_cell (h_req h)) = true ->
+  let i := q_cell (h_req h) in
+  let e := match h_ph h with PNew => ESkip i | _ => ECancel i end in
+  poll_h s h = (ev_add e (release (h_lk h) (set_slot i SDead s)), None).
+Proof. intros Hc Hcl. unfold Server.poll_h. cbv zeta. rewrite Hc, Hcl. reflexivity. Qed.
+
+Definition released (m : lockm) (s s' : sys) : Prop :=
+  match m with
+  | LkNone => rd s' = rd s /\ wr s' = wr s
+  | LkRead => rd s' = rd s - 1 /\ wr s' = wr s
+  | LkWrite => rd s' = rd s /\ wr s' = false
+  end.
+
+(** ... for the inline handler of the serve loop: the loop is back at its [select] (or past it,
+    after a by-value request), with the same queue, target and logical state, and the next step of
+    the loop takes the next request *)
+Theorem cancel_inline (s : sys) h :
+  loop s = LRun h -> c_nocancel (q_call (h_req h)) = false -> is_closed s (q_cell (h_req h)) = true ->
+  let s' := loop_step s in
+  loop s' = after_handler s h /\ released (h_lk h) s s' /\ queue s' = queue s /\ tasks s' = tasks s /\
+  target s' = target s /\ lst s' = lst s /\ errq s' = errq s /\
+  (forall j, execs j (trace s') = execs j (trace s)) /\
+  (forall j, j <> q_cell (h_req h) -> get_call s' j = get_call s j).
+Proof.
+  intros El Hc Hcl. unfold Server.loop_step. rewrite El, (cancel_abandons s h Hc Hcl).
+  unfold released. destruct (h_lk h); prj; repeat split; auto; try lia.
+  all: try (intros j; destruct (h_ph h); reflexivity).
+  all: intros j Hj; unfold get_call; prj; rewrite nth_error_upd_ne by lia; reflexivity.
+Qed.
+
+Theorem cancel_task (s : sys) k h :
+  nth_error (tasks s) k = Some h -> c_nocancel (q_call (h_req h)) = false -> is_closed s (q_cell (h_req h)) = true ->
+  let s' := task_step s k in
+  tasks s' = del k (tasks s) /\ released (h_lk h) s s' /\ loop s' = loop s /\ queue s' = queue s /\
+  target s' = target s /\ lst s' = lst s /\
+  (forall j, execs j (trace s') = execs j (trace s)) /\
+  (forall j, j <> q_cell (h_req h) -> get_call s' j = get_call s j).
+Proof.
+  intros Ek Hc Hcl. unfold Server.task_step. rewrite Ek, (cancel_abandons s h Hc Hcl).
+  unfold released. destruct (h_lk h); prj; repeat split; auto; try lia.
+  all: try (intros j; destruct (h_ph h); reflexivity).
+  all: intros j Hj; unfold get_call; prj; rewrite nth_error_upd_ne by lia; reflexivity.
+Qed.
+
+(** after the loop is back at its [select] with no reply error pending, its next step takes the next request *)
+Theorem idle_serves_next (s : sys) q rest :
+  loop s = LIdle -> errq s = 0 -> queue s = QReq q :: rest ->
+  loop_step s = dispatch (s <| queue := rest |>) q.
+Proof. intros El Ee Eq. unfold Server.loop_step. rewrite El, Ee, Eq. reflexivity. Qed.
+
+(** a [#[no_cancel]] method is never abandoned: whatever the state of its reply cell, each poll moves
+    it one phase further, through its effect, to its return *)
+Theorem no_cancel_runs (s : sys) h :
+  c_nocancel (q_call (h_req h)) = true ->
+  let i := q_cell (h_req h) in
+  let c := q_call (h_req h) in
+  match h_ph h with
+  | PNew => forall t, target s = Some t ->
+            snd (poll_h s h) = Some (mkH (h_req h) (PRun t) (h_lk h)) /\ trace (fst (poll_h s h)) = EStart i :: trace s
+  | PRun t => snd (poll_h s h) = Some (mkH (h_req h) (PApplied (snd (apply t c))) (h_lk h)) /\
+              trace (fst (poll_h s h)) = EExec i c (snd (apply t c)) :: trace s
+  | PApplied r => snd (poll_h s h) = None /\ trace (fst (poll_h s h)) = EFinish i :: trace s /\
+                  released (h_lk h) s (fst (poll_h s h))
+  end.
+Proof.
+  intros Hc i c. subst i c. unfold Server.poll_h. cbv zeta. rewrite Hc. cbn [negb andb].
+  destruct (h_ph h) as [|t|r].
+  - intros t Et. rewrite Et. destruct (c_kind (q_call (h_req h))); split; reflexivity.
+  - destruct (apply t (q_call (h_req h))) as [t' r]. destruct (c_kind (q_call (h_req h))); split; reflexivity.
+  - unfold released. destruct (is_closed s (q_cell (h_req h))), (too_big (q_call (h_req h)) r), (h_lk h); prj; repeat split; reflexivity.
+Qed.
+
+(** no guard of the target's lock is ever leaked: in every reachable state of the shared-mut server the
+    read guards held are exactly those of the live handlers, the write guard is held iff a live handler
+    holds it; with no live handler the lock is free *)
+Theorem no_lock_leak f sp p re ncl s0 acts :
+  let s := run acts (init f sp p re ncl s0) in
+  flav s = FSharedMut ->
+  rd s = N.of_nat (nreads (handlers s)) /\ (wr s = true <-> (0 < nwrites (handlers s))%nat) /\
+  (handlers s = [] -> rd s = 0 /\ wr s = false).
+Proof.
+  intros s Hf. pose proof (run_InvB s0 acts _ (init_InvB f sp p re ncl s0)) as (HB & _). fold s in HB.
+  destruct (b_lock _ _ _ HB Hf) as [Hr Hw]. split; [exact Hr|]. split; [exact Hw|].
+  intros E. rewrite E in Hr, Hw. cbn in Hr, Hw. split; [exact Hr|]. destruct (wr s); [|reflexivity].
+  destruct Hw as [Hw _]. specialize (Hw eq_refl). lia.
+Qed.
+
+(** an undecodable request (or a call of a method the server does not know) arriving at the server:
+    its own reply sender is dropped, a non-final receive error is queued, nothing else changes *)
+Theorem bad_request_arrives (s : sys) k cl q :
+  first_of_client (wire s) (N.to_nat k) = true -> nth_error (wire s) (N.to_nat k) = Some (cl, q) ->
+  c_bad (q_call q) = true -> is_done (loop s) = false ->
+  let s' := step s (ADeliverReq k) in
+  queue s' = queue s ++ [QBad] /\ loop s' = loop s /\ tasks s' = tasks s /\ target s' = target s /\ lst s' = lst s /\
+  trace s' = trace s /\
+  (forall j, j <> q_cell q -> get_call s' j = get_call s j) /\
+  (forall cr, get_call s (q_cell q) = Some cr -> exists cr', get_call s' (q_cell q) = Some cr' /\ cr_slot cr' = SDead).
+Proof.
+  intros Hf Hk Hb Hd. cbn [Server.step]. rewrite Hf, Hk, Hd, Hb. prj. repeat split; auto.
+  - intros j Hj. unfold get_call. prj. rewrite nth_error_upd_ne by lia. reflexivity.
+  - intros cr E. unfold get_call in *. prj. rewrite (nth_error_upd_eq _ _ _ _ E). eexists. split; reflexivity.
+Qed.
+
+(** ... and handled by the loop according to the policy; under Ignore and Send the loop state is
+    otherwise unchanged, under Fail [serve()] ends with that error *)
+Theorem bad_request_handled (s : sys) rest :
+  loop s = LIdle -> errq s = 0 -> queue s = QBad :: rest ->
+  loop_step s =
+  match pol s with
+  | PIgnore => ev_add EReqErr (s <| queue := rest |>)
+  | PSend => ev_add EReqErr (s <| queue := rest |>) <| uerrs := uerrs s + 1 |>
+  | PFail => finish RErrReq (ev_add EReqErr (s <| queue := rest |>))
+  end.
+Proof. intros El Ee Eq. unfold Server.loop_step. rewrite El, Ee, Eq. reflexivity. Qed.
+
+(** a request of a kind the flavour does not serve is received and dropped: only its own call fails *)
+Theorem unsupported_request_dropped (s : sys) q rest :
+  loop s = LIdle -> errq s = 0 -> queue s = QReq q :: rest -> supports (flav s) (c_kind (q_call q)) = false ->
+  loop_step s = set_slot (q_cell q) SDead (s <| queue := rest |>).
+Proof. intros El Ee Eq Hs. unfold Server.loop_step, dispatch. rewrite El, Ee, Eq. prj. rewrite Hs. reflexivity. Qed.
+
+(** ** replies that cannot be transmitted (finding F6) *)
+Definition no_reply_errors (s : sys) : Prop := errq s = 0 /\ forall b, In b (sends s) -> b = false.
+
+Lemma poll_h_no_reply_errors (s : sys) h s1 oh :
+  ((forall c r, too_big c r = false) \/ reperr s = false) ->
+  no_reply_errors s -> poll_h s h = (s1, oh) -> no_reply_errors s1 /\ reperr s1 = reperr s.
+Proof.
+  intros Hok [He Hs]. unfold Server.poll_h, no_reply_errors.
+  destruct (negb (c_nocancel (q_call (h_req h))) && is_closed s (q_cell (h_req h))).
+  { intros [= <- _]. destruct (h_lk h); prj; auto. }
+  destruct (h_ph h) as [|t|r].
+  - destruct (target s); [|intros [= <- _]; auto]. intros [= <- _]. destruct (c_kind (q_call (h_req h))); prj; auto.
+  - destruct (apply t (q_call (h_req h))) as [t' r]. intros [= <- _]. destruct (c_kind (q_call (h_req h))); prj; auto.
+  - intros [= <- _]. destruct (is_closed s (q_cell (h_req h))).
+    { destruct (h_lk h); prj; auto. }
+    destruct (too_big (q_call (h_req h)) r) eqn:Etb.
+    + destruct Hok as [Hok|Hok]; [rewrite Hok in Etb; discriminate|].
+      destruct (h_lk h); prj; (split; [split; [exact He|]|reflexivity]); intros b; rewrite in_app_iff; intros [H|[<-|[]]]; auto.
+    + destruct (h_lk h); prj; (split; [split; [exact He|]|reflexivity]); intros b; rewrite in_app_iff; intros [H|[<-|[]]]; auto.
+Qed.
+
+Lemma finish_errq (s : sys) r : errq (finish r s) = errq s /\ sends (finish r s) = sends s /\ reperr (finish r s) = reperr s.
+Proof.
+  unfold finish. prj. destruct (drop_queue_spec (queue s) s) as [Hr _]. unfold rest_eq in Hr. tauto.
+Qed.
+
+Lemma step_no_reply_errors (s : sys) a :
+  ((forall c r, too_big c r = false) \/ reperr s = false) ->
+  no_reply_errors s -> no_reply_errors (step s a) /\ reperr (step s a) = reperr s.
+Proof.
+  intros Hok HN. pose proof HN as [He Hs]. unfold no_reply_errors.
+  assert (Hfin : forall (X : sys) r, no_reply_errors X -> reperr X = reperr s -> no_reply_errors (finish r X) /\ reperr (finish r X) = reperr s).
+  { intros X r [H1 H2] H3. destruct (finish_errq X r) as (E1 & E2 & E3). unfold no_reply_errors. rewrite E1, E2, E3. auto. }
+  destruct a; cbn [Server.step].
+  - destruct (client_exists s cl); prj; auto.
+  - destruct (get_call s i) as [cr|]; auto. destruct (cr_st cr); auto.
+    destruct (cut s || qclosed s || negb (client_live s (cr_client cr))); prj; auto.
+    destruct (c_reqbig (cr_call cr)); prj; auto.
+  - destruct (get_call s i) as [cr|]; auto. destruct (cr_st cr); prj; auto.
+  - destruct (get_call s i) as [cr|]; auto. destruct (cr_st cr); prj; auto.
+  - destruct (first_of_client (wire s) (N.to_nat k)); auto.
+    destruct (nth_error (wire s) (N.to_nat k)) as [[cl q]|]; auto.
+    destruct (is_done (loop s)); [|destruct (c_bad (q_call q))]; prj; auto.
+  - destruct (get_call s i) as [cr|]; auto. destruct (cr_slot cr); prj; auto.
+  - destruct (get_call s i) as [cr|]; auto. destruct (cr_slot cr); prj; auto.
+  - destruct (get_call s i) as [cr|]; auto. destruct (cr_st cr); auto.
+    destruct (cr_slot cr); try (destruct (cut s)); prj; auto.
+  - prj; auto.
+  - prj; auto.
+  - destruct (all_dead (clients s) && negb (qclosed s) && match wire s with [] => true | _ => false end); prj; auto.
+  - destruct (cut s); auto. destruct (lose_wire_spec (wire s) s) as [Hr _]. unfold rest_eq in Hr.
+    destruct Hr as (_ & _ & _ & Er & _ & _ & _ & _ & _ & _ & _ & _ & _ & Es & Ee & _).
+    destruct (qclosed s); prj; rewrite Ee, Es, Er; auto.
+  - (* ALoop *)
+    unfold Server.loop_step. destruct (loop s) as [|q m|h| |r] eqn:El; auto.
+    + rewrite He. cbn. destruct (queue s) as [|[q| | |] rest]; auto.
+      * unfold dispatch. prj. destruct (negb (supports (flav s) (c_kind (q_call q)))); prj; auto.
+        destruct (flav s); try destruct (spawn s); prj; auto.
+      * destruct (pol s); prj; auto. apply Hfin; [split|]; auto.
+    + destruct m; [destruct (negb (wr s)); [destruct (spawn s)|]|destruct (negb (wr s)); [destruct (spawn s)|]
+                  |destruct (negb (wr s) && (rd s =? 0))]; prj; auto.
+    + destruct (poll_h s h) as [s1 oh] eqn:Ep. destruct (poll_h_no_reply_errors s h s1 oh Hok HN Ep) as [[H1 H2] H3].
+      destruct oh; prj; auto.
+    + rewrite He. cbn. destruct (tasks s); [destruct (sends s) eqn:Es|]; auto.
+      apply Hfin; [split; [exact He|rewrite Es; intros b []]|reflexivity].
+  - (* ATask *)
+    unfold Server.task_step. destruct (nth_error (tasks s) (N.to_nat k)) as [h|]; auto.
+    destruct (poll_h s h) as [s1 oh] eqn:Ep. destruct (poll_h_no_reply_errors s h s1 oh Hok HN Ep) as [[H1 H2] H3].
+    destruct oh; prj; auto.
+  - destruct (nth_error (sends s) (N.to_nat k)) as [b|] eqn:Ek; auto. prj.
+    assert (b = false) as -> by (apply Hs; eapply nth_error_In; eauto).
+    split; [split; [exact He|]|reflexivity]. intros b Hb. apply Hs. eapply in_del; eauto.
+Qed.
+
+Lemma step_loop_other (s : sys) a : a <> ALoop -> loop (step s a) = loop s.
+Proof.
+  intros Ha. destruct a; cbn [Server.step]; try contradiction.
+  - destruct (client_exists s cl); reflexivity.
+  - destruct (get_call s i) as [cr|]; [|reflexivity]. destruct (cr_st cr); try reflexivity.
+    destruct (cut s || qclosed s || negb (client_live s (cr_client cr))); [reflexivity|]. destruct (c_reqbig (cr_call cr)); reflexivity.
+  - destruct (get_call s i) as [cr|]; [|reflexivity]. destruct (cr_st cr); reflexivity.
+  - destruct (get_call s i) as [cr|]; [|reflexivity]. destruct (cr_st cr); reflexivity.
+  - destruct (first_of_client (wire s) (N.to_nat k)); [|reflexivity].
+    destruct (nth_error (wire s) (N.to_nat k)) as [[cl q]|]; [|reflexivity].
+    destruct (is_done (loop s)); [|destruct (c_bad (q_call q))]; reflexivity.
+  - destruct (get_call s i) as [cr|]; [|reflexivity]. destruct (cr_slot cr); reflexivity.
+  - destruct (get_call s i) as [cr|]; [|reflexivity]. destruct (cr_slot cr); reflexivity.
+  - destruct (get_call s i) as [cr|]; [|reflexivity]. destruct (cr_st cr); try reflexivity.
+    destruct (cr_slot cr); try (destruct (cut s)); reflexivity.
+  - reflexivity.
+  - reflexivity.
+  - destruct (all_dead (clients s) && negb (qclosed s) && match wire s with [] => true | _ => false end); reflexivity.
+  - destruct (cut s); [reflexivity|]. destruct (lose_wire_spec (wire s) s) as [Hr _]. unfold rest_eq in Hr.
+    destruct (qclosed s); prj; tauto.
+  - unfold Server.task_step. destruct (nth_error (tasks s) (N.to_nat k)) as [h|]; [|reflexivity].
+    destruct (poll_h s h) as [s1 oh] eqn:Ep. destruct (poll_h_fields _ _ _ _ Ep) as [_ El]. destruct oh; prj; exact El.
+  - destruct (nth_error (sends s) (N.to_nat k)); reflexivity.
+Qed.
+
+(** [serve()] ends with a reply error only when a reply error is queued *)
+Lemma loop_step_done_cause (s : sys) : loop (loop_step s) = LDone RErrReply -> loop s = LDone RErrReply \/ errq s <> 0.
+Proof.
+  unfold Server.loop_step. destruct (loop s) as [|q m|h| |r0] eqn:El.
+  - destruct (0 <? errq s) eqn:Ee; [intros _; right; lia|].
+    destruct (queue s) as [|[q| | |] rest]; try (rewrite El; discriminate).
+    + unfold dispatch. prj. destruct (negb (supports (flav s) (c_kind (q_call q)))); prj; [rewrite El; discriminate|].
+      destruct (flav s); try destruct (spawn s); prj; try rewrite El; discriminate.
+    + destruct (pol s); prj; try (rewrite El; discriminate).
+      destruct (finish_fields (ev_add EReqErr (s <| queue := rest |>)) RErrReq) as [E _]. rewrite E. discriminate.
+    + prj. discriminate.
+    + prj. discriminate.
+  - destruct m; [destruct (negb (wr s)); [destruct (spawn s)|]|destruct (negb (wr s)); [destruct (spawn s)|]
+                |destruct (negb (wr s) && (rd s =? 0))]; prj; try rewrite El; discriminate.
+  - destruct (poll_h s h) as [s1 oh]. destruct oh; prj; [discriminate|].
+    unfold after_handler. destruct (flav s), (c_kind (q_call (h_req h))); discriminate.
+  - destruct (0 <? errq s) eqn:Ee; [intros _; right; lia|].
+    destruct (tasks s); [destruct (sends s)|]; try (rewrite El; discriminate).
+    destruct (finish_fields s ROk) as [E _]. rewrite E. discriminate.
+  - rewrite El. auto.
+Qed.
+
+(** outside the known class (no reply exceeds the limit, or the provider does not report reply errors
+    as [rfn] providers do) [serve()] never ends because a reply could not be sent *)
+Theorem reply_ok_never_fails f sp p re ncl s0 acts :
+  (forall c r, too_big c r = false) \/ re = false ->
+  loop (run acts (init f sp p re ncl s0)) <> LDone RErrReply.
+Proof.
+  intros Hok.
+  assert (H : forall acts (s : sys), reperr s = re -> no_reply_errors s -> loop s <> LDone RErrReply ->
+            loop (run acts s) <> LDone RErrReply).
+  { clear acts. induction acts as [|a t IH]; intros s Hre HN Hl; [exact Hl|].
+    cbn [Server.run fold_left].
+    assert (Hok' : (forall c r, too_big c r = false) \/ reperr s = false) by (rewrite Hre; exact Hok).
+    destruct (step_no_reply_errors s a Hok' HN) as [HN' Hre'].
+    apply IH; [congruence|exact HN'|].
+    intros E. assert (Hd : {a = ALoop} + {a <> ALoop}) by (destruct a; (left; reflexivity) || (right; discriminate)).
+    destruct Hd as [->|Hd].
+    - cbn [Server.step] in E. destruct (loop_step_done_cause s E) as [H|H]; [exact (Hl H)|]. destruct HN as [He _]. exact (H He).
+    - rewrite (step_loop_other s a Hd) in E. exact (Hl E). }
+  apply H; [reflexivity|split; [reflexivity|intros b []]|discriminate].
+Qed.
+
+(** ** oversized requests (finding F12): outside the class no client handle is ever poisoned *)
+Definition calls_kept (s s' : sys) : Prop :=
+  forall i cr', get_call s' i = Some cr' -> exists cr, get_call s i = Some cr /\ cr_call cr' = cr_call cr.
+
+Lemma calls_kept_refl s : calls_kept s s.
+Proof. intros i cr E. eauto. Qed.
+Lemma calls_kept_trans a b c : calls_kept a b -> calls_kept b c -> calls_kept a c.
+Proof. intros H1 H2 i cr E. destruct (H2 i cr E) as (x & Ex & Hx). destruct (H1 i x Ex) as (y & Ey & Hy). exists y. split; congruence. Qed.
+Lemma calls_kept_eq (s s' : sys) : calls s' = calls s -> calls_kept s s'.
+Proof. intros E i cr. unfold get_call. rewrite E. eauto. Qed.
+Lemma calls_kept_upd (s s' : sys) n f : (forall c, cr_call (f c) = cr_call c) -> calls s' = upd n f (calls s) -> calls_kept s s'.
+Proof.
+  intros Hf E i cr. unfold get_call. rewrite E, nth_error_upd. destruct (Nat.eqb n (N.to_nat i)); [|eauto].
+  destruct (nth_error (calls s) (N.to_nat i)) as [c|]; cbn [option_map]; [|discriminate]. intros [= <-]. eauto.
+Qed.
+Lemma calls_kept_killed (s s' : sys) : rel_calls slot_killed s s' -> calls_kept s s'.
+Proof.
+  intros H i cr E. specialize (H i). rewrite E in H. destruct (get_call s i) as [c|]; [|contradiction].
+  destruct H as ((_ & H) & _). eauto.
+Qed.
+
+Lemma poll_h_calls_kept (s : sys) h s1 oh : poll_h s h = (s1, oh) -> calls_kept s s1 /\ clients s1 = clients s.
+Proof.
+  unfold Server.poll_h.
+  destruct (negb (c_nocancel (q_call (h_req h))) && is_closed s (q_cell (h_req h))).
+  { intros [= <- _]. split; [|destruct (h_lk h); reflexivity]. eapply calls_kept_upd with (f := fun c => mkC _ _ _ _ _); [reflexivity|]. destruct (h_lk h); reflexivity. }
+  destruct (h_ph h) as [|t|r].
+  - destruct (target s); [|intros [= <- _]; split; [apply calls_kept_refl|reflexivity]].
+    intros [= <- _]. split; [apply calls_kept_eq|]; destruct (c_kind (q_call (h_req h))); reflexivity.
+  - destruct (apply t (q_call (h_req h))) as [t' r]. intros [= <- _]. split; [apply calls_kept_eq|]; destruct (c_kind (q_call (h_req h))); reflexivity.
+  - intros [= <- _]. split; [|destruct (is_closed s (q_cell (h_req h))), (too_big (q_call (h_req h)) r), (h_lk h); reflexivity].
+    destruct (is_closed s (q_cell (h_req h))), (too_big (q_call (h_req h)) r);
+      (eapply calls_kept_upd with (f := fun c => mkC _ _ _ _ _); [reflexivity|]); destruct (h_lk h); reflexivity.
+Qed.
+
+Lemma finish_calls_kept (s : sys) r : calls_kept s (finish r s) /\ clients (finish r s) = clients s.
+Proof.
+  unfold finish. destruct (drop_queue_spec (queue s) s) as [Hr Hk]. unfold rest_eq in Hr. split; [|prj; tauto].
+  eapply calls_kept_trans; [apply calls_kept_killed, Hk|]. apply calls_kept_eq. reflexivity.
+Qed.
+
+(** a step keeps the arguments of every call; a new call is the one of an [AInvoke]; a client handle is
+    poisoned only by sending an oversized request *)
+Lemma step_calls_clients (s : sys) a :
+  (forall i cr', get_call (step s a) i = Some cr' ->
+     (exists cr, get_call s i = Some cr /\ cr_call cr' = cr_call cr) \/ exists cl, a = AInvoke cl (cr_call cr')) /\
+  (forall cl, nth_error (clients (step s a)) cl = Some ClPoisoned ->
+     nth_error (clients s) cl = Some ClPoisoned \/ exists i cr, get_call s i = Some cr /\ c_reqbig (cr_call cr) = true).
+Proof.
+  assert (Hk : forall s' : sys, calls_kept s s' -> clients s' = clients s ->
+            (forall i cr', get_call s' i = Some cr' ->
+               (exists cr, get_call s i = Some cr /\ cr_call cr' = cr_call cr) \/ exists cl, a = AInvoke cl (cr_call cr')) /\
+            (forall cl, nth_error (clients s') cl = Some ClPoisoned ->
+               nth_error (clients s) cl = Some ClPoisoned \/ exists i cr, get_call s i = Some cr /\ c_reqbig (cr_call cr) = true)).
+  { intros s' H1 H2. split; [intros i cr' E; left; exact (H1 i cr' E)|intros cl; rewrite H2; auto]. }
+  assert (Hup : forall (s' : sys) n (f : crec -> crec), (forall c, cr_call (f c) = cr_call c) -> calls s' = upd n f (calls s) -> calls_kept s s').
+  { intros s' n f Hf E. eapply calls_kept_upd; eauto. }
+  destruct a; cbn [Server.step].
+  - destruct (client_exists s cl); [|apply Hk; [apply calls_kept_refl|reflexivity]].
+    split; [|prj; auto]. intros i cr'.
+    change (get_call (ev_add (EInv (len (calls s)) cl c) (s <| calls := calls s ++ [mkC cl c CInit false SEmpty] |>)) i)
+      with (get_call (s <| calls := calls s ++ [mkC cl c CInit false SEmpty] |>) i).
+    rewrite get_call_new. destruct (i =? len (calls s)); [intros [= <-]; right; eauto|eauto].
+  - destruct (get_call s i) as [cr|] eqn:Ecr; [|apply Hk; [apply calls_kept_refl|reflexivity]].
+    destruct (cr_st cr); try (apply Hk; [apply calls_kept_refl|reflexivity]).
+    destruct (cut s || qclosed s || negb (client_live s (cr_client cr))).
+    { apply Hk; [|reflexivity]. eapply Hup with (f := fun c => mkC _ _ _ _ _); reflexivity. }
+    destruct (c_reqbig (cr_call cr)) eqn:Eb.
+    + split.
+      * intros j cr' E. left. revert E.
+        match goal with |- context [get_call ?X j] => change (get_call X j) with (get_call (set_slot i SDead (set_st i CWait s)) j) end.
+        rewrite get_call_set_slot, get_call_set_st. destruct (i =? j); [|eauto].
+        destruct (get_call s j); cbn [option_map]; [|discriminate]. intros [= <-]. eauto.
+      * intros cl _. right. eauto.
+    + apply Hk; [|reflexivity]. eapply Hup with (f := fun c => mkC _ _ _ _ _); reflexivity.
+  - destruct (get_call s i) as [cr|]; [|apply Hk; [apply calls_kept_refl|reflexivity]].
+    destruct (cr_st cr); try (apply Hk; [apply calls_kept_refl|reflexivity]);
+      (apply Hk; [|reflexivity]; eapply Hup with (f := fun c => mkC _ _ _ _ _); reflexivity).
+  - destruct (get_call s i) as [cr|]; [|apply Hk; [apply calls_kept_refl|reflexivity]].
+    destruct (cr_st cr); try (apply Hk; [apply calls_kept_refl|reflexivity]).
+    apply Hk; [|reflexivity]; eapply Hup with (f := fun c => mkC _ _ _ _ _); reflexivity.
+  - destruct (first_of_client (wire s) (N.to_nat k)); [|apply Hk; [apply calls_kept_refl|reflexivity]].
+    destruct (nth_error (wire s) (N.to_nat k)) as [[cl q]|]; [|apply Hk; [apply calls_kept_refl|reflexivity]].
+    destruct (is_done (loop s)); [|destruct (c_bad (q_call q))]; (apply Hk; [|reflexivity]);
+      try (eapply Hup with (f := fun c => mkC _ _ _ _ _); reflexivity). apply calls_kept_eq. reflexivity.
+  - destruct (get_call s i) as [cr|]; [|apply Hk; [apply calls_kept_refl|reflexivity]].
+    destruct (cr_slot cr); try (apply Hk; [apply calls_kept_refl|reflexivity]).
+    apply Hk; [|reflexivity]; eapply Hup with (f := fun c => mkC _ _ _ _ _); reflexivity.
+  - destruct (get_call s i) as [cr|]; [|apply Hk; [apply calls_kept_refl|reflexivity]].
+    destruct (cr_slot cr); try (apply Hk; [apply calls_kept_refl|reflexivity]).
+    apply Hk; [|reflexivity]; eapply Hup with (f := fun c => mkC _ _ _ _ _); reflexivity.
+  - destruct (get_call s i) as [cr|]; [|apply Hk; [apply calls_kept_refl|reflexivity]].
+    destruct (cr_st cr); try (apply Hk; [apply calls_kept_refl|reflexivity]).
+    destruct (cr_slot cr); try (destruct (cut s)); try (apply Hk; [apply calls_kept_refl|reflexivity]);
+      (apply Hk; [|reflexivity]; eapply Hup with (f := fun c => mkC _ _ _ _ _); reflexivity).
+  - split; [intros i cr' E; left; eauto|]. prj. intros cl E. left.
+    destruct (Nat.lt_ge_cases cl (length (clients s))) as [H|H].
+    + now rewrite nth_error_app1 in E.
+    + rewrite nth_error_app2 in E by exact H. destruct (cl - length (clients s))%nat as [|[|n]]; discriminate.
+  - split; [intros i cr' E; left; eauto|]. prj. intros cl0 E. left. rewrite nth_error_upd in E.
+    destruct (Nat.eqb (N.to_nat cl) cl0); [|exact E]. destruct (nth_error (clients s) cl0); discriminate.
+  - destruct (all_dead (clients s) && negb (qclosed s) && match wire s with [] => true | _ => false end);
+      (apply Hk; [apply calls_kept_eq|]; reflexivity).
+  - destruct (cut s); [apply Hk; [apply calls_kept_refl|reflexivity]|].
+    destruct (lose_wire_spec (wire s) s) as [Hr Hkk]. unfold rest_eq in Hr.
+    assert (Hc : forall X : sys, calls X = map cut_cell (calls (lose_wire (wire s) s)) -> calls_kept s X).
+    { intros X E. eapply calls_kept_trans; [apply calls_kept_killed, Hkk|]. intros i cr'. unfold get_call. rewrite E, nth_error_map.
+      destruct (nth_error (calls (lose_wire (wire s) s)) (N.to_nat i)); cbn [option_map]; [|discriminate]. intros [= <-]. eauto. }
+    destruct (qclosed s); (apply Hk; [apply Hc; reflexivity|prj; tauto]).
+  - (* ALoop *)
+    unfold Server.loop_step. destruct (loop s) as [|q m|h| |r].
+    + destruct (0 <? errq s). { apply Hk; apply finish_calls_kept. }
+      destruct (queue s) as [|[q| | |] rest]; try (apply Hk; [apply calls_kept_eq|]; reflexivity).
+      * unfold dispatch. prj. destruct (negb (supports (flav s) (c_kind (q_call q)))).
+        { apply Hk; [|reflexivity]. eapply Hup with (f := fun c => mkC _ _ _ _ _); reflexivity. }
+        destruct (flav s); try destruct (spawn s); (apply Hk; [apply calls_kept_eq|]; reflexivity).
+      * destruct (pol s); try (apply Hk; [apply calls_kept_eq|]; reflexivity).
+        destruct (finish_calls_kept (ev_add EReqErr (s <| queue := rest |>)) RErrReq) as [F1 F2].
+        apply Hk; [eapply calls_kept_trans; [|exact F1]; apply calls_kept_eq; reflexivity|exact F2].
+    + destruct m; [destruct (negb (wr s)); [destruct (spawn s)|]|destruct (negb (wr s)); [destruct (spawn s)|]
+                  |destruct (negb (wr s) && (rd s =? 0))]; (apply Hk; [apply calls_kept_eq|]; reflexivity).
+    + destruct (poll_h s h) as [s1 oh] eqn:Ep. destruct (poll_h_calls_kept _ _ _ _ Ep) as [P1 P2].
+      destruct oh; (apply Hk; [eapply calls_kept_trans; [exact P1|apply calls_kept_eq; reflexivity]|exact P2]).
+    + destruct (0 <? errq s). { apply Hk; apply finish_calls_kept. }
+      destruct (tasks s); [destruct (sends s)|]; try (apply Hk; [apply calls_kept_refl|reflexivity]).
+      apply Hk; apply finish_calls_kept.
+    + apply Hk; [apply calls_kept_refl|reflexivity].
+  - unfold Server.task_step. destruct (nth_error (tasks s) (N.to_nat k)) as [h|]; [|apply Hk; [apply calls_kept_refl|reflexivity]].
+    destruct (poll_h s h) as [s1 oh] eqn:Ep. destruct (poll_h_calls_kept _ _ _ _ Ep) as [P1 P2].
+    destruct oh; (apply Hk; [eapply calls_kept_trans; [exact P1|apply calls_kept_eq; reflexivity]|exact P2]).
+  - destruct (nth_error (sends s) (N.to_nat k)); (apply Hk; [apply calls_kept_eq|]; reflexivity).
+Qed.
+
+Definition no_big_requests (acts : list (action Arg)) : Prop :=
+  forall cl c, In (AInvoke cl c) acts -> c_reqbig c = false.
+
+Theorem request_ok_never_poisons f sp p re ncl s0 acts :
+  no_big_requests acts ->
+  forall cl, nth_error (clients (run acts (init f sp p re ncl s0))) cl <> Some ClPoisoned.
+Proof.
+  intros Hok.
+  assert (H : forall acts (s : sys), no_big_requests acts ->
+            (forall i cr, get_call s i = Some cr -> c_reqbig (cr_call cr) = false) ->
+            (forall cl, nth_error (clients s) cl <> Some ClPoisoned) ->
+            forall cl, nth_error (clients (run acts s)) cl <> Some ClPoisoned).
+  { clear acts Hok. induction acts as [|a t IH]; intros s Hok Hc Hp; [exact Hp|].
+    cbn [Server.run fold_left]. destruct (step_calls_clients s a) as [S1 S2].
+    apply IH.
+    - intros cl c Hin. apply (Hok cl c). now right.
+    - intros i cr' E. destruct (S1 i cr' E) as [(cr & Ecr & Ec)|(cl & ->)].
+      + rewrite Ec. eapply Hc; eauto.
+      + apply (Hok cl). now left.
+    - intros cl E. destruct (S2 cl E) as [H|(i & cr & Ecr & Eb)]; [exact (Hp cl H)|].
+      rewrite (Hc i cr Ecr) in Eb. discriminate. }
+  apply H; auto.
+  - intros i cr. unfold get_call, init. prj. destruct (N.to_nat i); discriminate.
+  - intros cl. unfold init. prj. intros E. apply nth_error_In in E. apply repeat_spec in E. discriminate.
+Qed.
+
 End Proofs.
